@@ -12,6 +12,7 @@
 import MxModel.Gen.KEnergyFactory
 import MxModel.Core.Energy
 import MxModel.Props.KMath
+import MxModel.Lemmas.KTactic
 
 namespace Mx.KEnergyFactory
 open Mx Mx.Gen Mx.Energy
@@ -21,10 +22,8 @@ open Mx Mx.Gen Mx.Energy
 theorem unlock_epoch_to_start_of_month_eq (e : Nat) :
     KEnergyFactory.unlock_epoch_to_start_of_month e = some (startOfMonth e) := by
   have hM : MONTH = 30 := rfl
-  have h1 : ¬ (30 = 0) := by omega
-  have h2 : e % 30 ≤ e := Nat.mod_le e 30
-  simp only [KEnergyFactory.unlock_epoch_to_start_of_month, startOfMonth, hM, mod?, sub?, if_neg h1,
-    if_pos h2, Option.bind_eq_bind, Option.bind_some]
+  k_defs [KEnergyFactory.unlock_epoch_to_start_of_month, startOfMonth, hM]
+  k_solve
 
 /-- the result is a month boundary not after the epoch, less than a month before it -/
 theorem unlock_epoch_to_start_of_month_spec (e m : Nat)
@@ -44,19 +43,8 @@ theorem partial_unlock_generic (f : Nat → Option Nat) (prev new pp pn : Nat)
     (hp : f prev = some pp) (hn : f new = some pn) :
     KEnergyFactory.calculate_penalty_percentage_partial_unlock prev new f =
       if pp < pn ∨ 10000 ≤ pn then none else some ((pp - pn) * 10000 / (10000 - pn)) := by
-  simp only [KEnergyFactory.calculate_penalty_percentage_partial_unlock, hp, hn, sub?, div?,
-    Option.bind_eq_bind, Option.bind_some]
-  by_cases h1 : pn ≤ pp
-  · by_cases h2 : pn ≤ 10000
-    · by_cases h3 : 10000 - pn = 0
-      · have h : pp < pn ∨ 10000 ≤ pn := by omega
-        simp only [if_pos h1, if_pos h2, if_pos h3, if_pos h, Option.bind_some]
-      · have h : ¬ (pp < pn ∨ 10000 ≤ pn) := by omega
-        simp only [if_pos h1, if_pos h2, if_neg h3, if_neg h, Option.bind_some]
-    · have h : pp < pn ∨ 10000 ≤ pn := by omega
-      simp only [if_pos h1, if_neg h2, if_pos h, Option.bind_some, Option.bind_none]
-  · have h : pp < pn ∨ 10000 ≤ pn := by omega
-    simp only [if_neg h1, if_pos h, Option.bind_none]
+  k_defs [KEnergyFactory.calculate_penalty_percentage_partial_unlock, hp, hn]
+  k_solve
 
 /-- source `calculate_penalty_percentage_partial_unlock` (with the model's full-unlock percentage
     for the stored options) IS the model's `pctPartial` -/
@@ -64,25 +52,8 @@ theorem partial_unlock_eq (opts : List Opt) (prev new : Nat) :
     KEnergyFactory.calculate_penalty_percentage_partial_unlock prev new (pctFull opts) =
       pctPartial opts prev new := by
   have hX : MAXPCT = 10000 := rfl
-  simp only [KEnergyFactory.calculate_penalty_percentage_partial_unlock, pctPartial, hX,
-    Option.bind_eq_bind, Option.pure_def]
-  cases pctFull opts prev with
-  | none => rfl
-  | some pp =>
-    cases pctFull opts new with
-    | none => rfl
-    | some pn =>
-      simp only [Option.bind_some, sub?, div?]
-      by_cases h1 : pn ≤ pp
-      · by_cases h2 : pn ≤ 10000
-        · by_cases h3 : 10000 - pn = 0
-          · have h4 : ¬ (10000 - pn ≠ 0) := by omega
-            simp only [if_pos h1, if_pos h2, if_pos h3, Option.bind_some, req, if_neg h4,
-              Option.bind_none]
-          · have h4 : 10000 - pn ≠ 0 := h3
-            simp only [if_pos h1, if_pos h2, if_neg h3, Option.bind_some, req, if_pos h4]
-        · simp only [if_pos h1, if_neg h2, Option.bind_some, Option.bind_none]
-      · simp only [if_neg h1, Option.bind_none]
+  k_defs [KEnergyFactory.calculate_penalty_percentage_partial_unlock, pctPartial, hX]
+  cases pctFull opts prev <;> cases pctFull opts new <;> k_solve
 
 /-- source `calculate_penalty_amount` = view `getPenaltyAmount` (with the model's full-unlock
     percentage) IS the model's `penaltyAmount`: same guards (`prev > 0`, `new < prev`; an empty
@@ -92,23 +63,12 @@ theorem calculate_penalty_amount_eq (opts : List Opt) (amt prev new : Nat) :
     KEnergyFactory.calculate_penalty_amount amt prev new (pctFull opts) =
       penaltyAmount opts amt prev new := by
   have hX : MAXPCT = 10000 := rfl
-  have h0 : ¬ (10000 = 0) := by omega
-  simp only [KEnergyFactory.calculate_penalty_amount, penaltyAmount, partial_unlock_eq, hX, div?,
-    if_neg h0, gt_iff_lt, Option.bind_eq_bind, Option.pure_def]
-  by_cases h1 : 0 < prev
-  · by_cases h2 : new < prev
-    · simp only [req, if_pos h1, if_pos h2, Option.bind_some]
-      by_cases ho : opts = []
-      · subst ho
-        have hne : ¬ (([] : List Opt) ≠ []) := fun c => c rfl
-        simp only [if_neg hne, Option.bind_none]
-        by_cases hn : new = 0
-        · simp only [if_pos hn, pctFull, pctFrom, Option.bind_none]
-        · simp only [if_neg hn, pctPartial, pctFull, pctFrom, Option.bind_eq_bind, Option.bind_none]
-      · have hne : opts ≠ [] := ho
-        simp only [if_pos hne, Option.bind_some]
-    · simp only [req, if_pos h1, if_neg h2, Option.bind_some, Option.bind_none]
-  · simp only [req, if_neg h1, Option.bind_none]
+  k_defs [KEnergyFactory.calculate_penalty_amount, penaltyAmount, partial_unlock_eq, hX]
+  by_cases ho : opts = []
+  · subst ho
+    simp only [pctPartial, pctFull, pctFrom]
+    k_solve
+  · cases pctFull opts prev <;> cases pctPartial opts prev new <;> k_solve
 
 /-- the new lock period of `reduceLockPeriod` (unlock_with_penalty.rs: `lock_epochs −
     (tentative − start_of_month(tentative))` with `tentative = current + lock_epochs`) is the model's
@@ -143,7 +103,160 @@ theorem pctFrom_runs_linear_interpolation (opts : List Opt) (e0 p0 rem p : Nat) 
       obtain ⟨a, pa, b, pb, h1, h2, h3, h4⟩ := ih e1 p1 (by omega) h
       exact ⟨a, pa, b, pb, h1, h2, List.mem_cons_of_mem _ h3, h4⟩
 
+/-! ### unlock epochs of `lockTokens` / `lockVirtual` / `extendLockPeriod` -/
+
+/-- the unlock epoch of `lockTokens`: `start_of_month(current + lock_epochs)`, which must lie
+    strictly after the current epoch — the model's `unlock` and its guard `s.epoch < unlock` -/
+theorem lock_unlock_epoch_eq (now epochs : Nat) :
+    KEnergyFactory.lock_unlock_epoch now epochs =
+      if now < startOfMonth (now + epochs) then some (startOfMonth (now + epochs)) else none := by
+  k_defs [KEnergyFactory.lock_unlock_epoch, unlock_epoch_to_start_of_month_eq]
+  k_solve
+
+/-- `lockVirtual` computes the same unlock epoch under the same guard -/
+theorem lock_virtual_unlock_epoch_eq (now epochs : Nat) :
+    KEnergyFactory.lock_virtual_unlock_epoch now epochs =
+      if now < startOfMonth (now + epochs) then some (startOfMonth (now + epochs)) else none := by
+  k_defs [KEnergyFactory.lock_virtual_unlock_epoch, unlock_epoch_to_start_of_month_eq]
+  k_solve
+
+/-- … and so does `extendLockPeriod` -/
+theorem extend_unlock_epoch_eq (now epochs : Nat) :
+    KEnergyFactory.extend_unlock_epoch now epochs =
+      if now < startOfMonth (now + epochs) then some (startOfMonth (now + epochs)) else none := by
+  k_defs [KEnergyFactory.extend_unlock_epoch, unlock_epoch_to_start_of_month_eq]
+  k_solve
+
+/-- extending must move the unlock epoch strictly forward (the model's `req (old < unlock)`) -/
+theorem extend_epoch_guard_eq (old new : Nat) :
+    KEnergyFactory.extend_epoch_guard old new = if old < new then some () else none := by
+  k_defs [KEnergyFactory.extend_epoch_guard]
+  k_solve
+
+/-- a successful model `lockTokens` / `lockVirtual` / `extendLock` passed the source's unlock-epoch
+    computation with the model's `startOfMonth (epoch + epochs)` -/
+theorem lockTokens_runs_source {s s' : St} {c amt epochs dest : Nat} {o : Out}
+    (h : lockTokens s c amt epochs dest = some (s', o)) :
+    KEnergyFactory.lock_unlock_epoch s.epoch epochs = some (startOfMonth (s.epoch + epochs)) := by
+  simp only [lockTokens, Option.bind_eq_bind, Option.bind_eq_some_iff, req_eq_some] at h
+  obtain ⟨_, _, _, _, _, _, _, hu, _⟩ := h
+  rw [lock_unlock_epoch_eq, if_pos hu]
+
+theorem lockVirtual_runs_source {s s' : St} {c amt epochs dest eaddr : Nat} {o : Out}
+    (h : lockVirtual s c amt epochs dest eaddr = some (s', o)) :
+    KEnergyFactory.lock_virtual_unlock_epoch s.epoch epochs =
+      some (startOfMonth (s.epoch + epochs)) := by
+  simp only [lockVirtual, Option.bind_eq_bind, Option.bind_eq_some_iff, req_eq_some] at h
+  obtain ⟨_, _, _, _, _, _, _, _, _, _, _, hu, _⟩ := h
+  rw [lock_virtual_unlock_epoch_eq, if_pos hu]
+
+theorem extendLock_runs_source {s s' : St} {c n amt epochs dest : Nat} {o : Out}
+    (h : extendLock s c n amt epochs dest = some (s', o)) :
+    KEnergyFactory.extend_unlock_epoch s.epoch epochs = some (startOfMonth (s.epoch + epochs)) ∧
+    ∃ old, s.unlockOf n = some old ∧
+      KEnergyFactory.extend_epoch_guard old (startOfMonth (s.epoch + epochs)) = some () := by
+  simp only [extendLock, Option.bind_eq_bind, Option.bind_eq_some_iff, req_eq_some] at h
+  obtain ⟨_, _, _, _, _, _, _, hu, _, _, old, hold, _, _, _, hlt, _⟩ := h
+  refine ⟨by rw [extend_unlock_epoch_eq, if_pos hu], old, hold, ?_⟩
+  rw [extend_epoch_guard_eq, if_pos hlt]
+
+/-! ### `reduceLockPeriod` / `unlockEarly` (reduce_lock_period_common) -/
+
+/-- only a token that is still locked can be reduced / unlocked early -/
+theorem reduce_unlockable_guard_eq (unlock now : Nat) :
+    KEnergyFactory.reduce_unlockable_guard unlock now = if now < unlock then some () else none := by
+  k_defs [KEnergyFactory.reduce_unlockable_guard]
+  k_solve
+
+/-- the new lock period of `reduceLockPeriod`: `lock_epochs − ((current + lock_epochs) mod 30)`
+    (checked) — the model's `newEpochs ← sub? epochs ((s.epoch + epochs) % MONTH)` -/
+theorem reduce_new_lock_epochs_src_eq (now epochs : Nat) :
+    KEnergyFactory.reduce_new_lock_epochs now epochs = sub? epochs ((now + epochs) % MONTH) := by
+  have hM : MONTH = 30 := rfl
+  k_defs [KEnergyFactory.reduce_new_lock_epochs, unlock_epoch_to_start_of_month_eq, startOfMonth, hM]
+  k_solve
+
+/-- the remaining lock period and the guard "the new period is shorter":
+    `prev = unlock − current` (checked), `new < prev` -/
+theorem reduce_prev_lock_epochs_eq (unlock now new : Nat) :
+    KEnergyFactory.reduce_prev_lock_epochs unlock now new =
+      if unlock < now ∨ unlock - now ≤ new then none else some (unlock - now) := by
+  k_defs [KEnergyFactory.reduce_prev_lock_epochs]
+  k_solve
+
+/-- the penalty is taken off the unlocked amount and must leave something:
+    `amount > penalty`, result `amount − penalty` (the model's `req (pen < amt)`, `amt − pen`) -/
+theorem reduce_apply_penalty_eq (pen amt : Nat) :
+    KEnergyFactory.reduce_apply_penalty pen amt = if pen < amt then some (amt - pen) else none := by
+  k_defs [KEnergyFactory.reduce_apply_penalty]
+  k_solve
+
+/-- `reduceLockPeriod` after the common part: the new unlock epoch is `current + new_lock_epochs`,
+    the penalty sent on is `paid − re-locked` -/
+theorem reduce_relock_eq (now paid newEpochs x relocked : Nat) :
+    KEnergyFactory.reduce_relock now paid newEpochs x relocked =
+      if paid < relocked then none else some (now + newEpochs, paid - relocked) := by
+  k_defs [KEnergyFactory.reduce_relock]
+  k_solve
+
+/-- … and `paid − penalty` of the old locked tokens are burned (the penalty part travels on to
+    token-unstake as locked tokens) -/
+theorem reduce_burn_amount_eq (paid pen : Nat) :
+    KEnergyFactory.reduce_burn_amount paid pen = if paid < pen then none else some (paid - pen) := by
+  k_defs [KEnergyFactory.reduce_burn_amount]
+  k_solve
+
+/-- a successful model `reduceLock` runs the source's arithmetic: new lock period, previous period
+    with its guard, penalty (through `calculate_penalty_amount` with the model's percentage
+    function), amount left, new unlock epoch and penalty forwarded -/
+theorem reduceLock_runs_source {s s' : St} {c n amt epochs : Nat} {o : Out}
+    (h : reduceLock s c n amt epochs = some (s', o)) :
+    ∃ unlock newEpochs,
+      s.unlockOf n = some unlock ∧
+      KEnergyFactory.reduce_unlockable_guard unlock s.epoch = some () ∧
+      KEnergyFactory.reduce_new_lock_epochs s.epoch epochs = some newEpochs ∧
+      KEnergyFactory.reduce_prev_lock_epochs unlock s.epoch newEpochs = some (unlock - s.epoch) ∧
+      KEnergyFactory.calculate_penalty_amount amt (unlock - s.epoch) newEpochs (pctFull s.opts) =
+        some o.v3 ∧
+      KEnergyFactory.reduce_apply_penalty o.v3 amt = some o.v2 ∧
+      KEnergyFactory.reduce_relock s.epoch amt newEpochs 0 o.v2 = some (s.epoch + newEpochs, o.v3) := by
+  simp only [reduceLock, Option.bind_eq_bind, Option.bind_eq_some_iff, req_eq_some,
+    Option.pure_def, Option.some.injEq, Prod.mk.injEq] at h
+  obtain ⟨_, _, _, _, _, _, unlock, hun, _, _, _, hlt, newEpochs, hnew, _, hprev, _, _, pen, hpen,
+    _, hpos, _, hpa, _, _, _, _, _, rfl⟩ := h
+  refine ⟨unlock, newEpochs, hun, ?_, ?_, ?_, ?_, ?_, ?_⟩
+  · rw [reduce_unlockable_guard_eq, if_pos hlt]
+  · rw [reduce_new_lock_epochs_src_eq, hnew]
+  · rw [reduce_prev_lock_epochs_eq, if_neg (by omega)]
+  · rw [calculate_penalty_amount_eq, hpen]
+  · rw [reduce_apply_penalty_eq, if_pos hpa]
+  · have e2 : amt - (amt - pen) = pen := by omega
+    have e3 : ¬ amt < amt - pen := by omega
+    simp only [reduce_relock_eq, e2, if_neg e3]
+
+/-- a successful model `unlockEarly` runs the same common part with new period 0: full-unlock
+    penalty, `amount − penalty` base tokens go to token-unstake -/
+theorem unlockEarly_runs_source {s s' : St} {c n amt : Nat} {o : Out}
+    (h : unlockEarly s c n amt = some (s', o)) :
+    ∃ unlock,
+      s.unlockOf n = some unlock ∧
+      KEnergyFactory.reduce_unlockable_guard unlock s.epoch = some () ∧
+      KEnergyFactory.reduce_prev_lock_epochs unlock s.epoch 0 = some (unlock - s.epoch) ∧
+      KEnergyFactory.calculate_penalty_amount amt (unlock - s.epoch) 0 (pctFull s.opts) = some o.v1 ∧
+      KEnergyFactory.reduce_apply_penalty o.v1 amt = some o.v2 := by
+  simp only [unlockEarly, Option.bind_eq_bind, Option.bind_eq_some_iff, req_eq_some,
+    Option.pure_def, Option.some.injEq, Prod.mk.injEq] at h
+  obtain ⟨_, _, unlock, hun, _, _, _, hlt, _, _, pen, hpen, _, _, _, hpa, _, _, _, rfl⟩ := h
+  refine ⟨unlock, hun, ?_, ?_, ?_, ?_⟩
+  · rw [reduce_unlockable_guard_eq, if_pos hlt]
+  · rw [reduce_prev_lock_epochs_eq, if_neg (by omega)]
+  · rw [calculate_penalty_amount_eq, hpen]
+  · rw [reduce_apply_penalty_eq, if_pos hpa]
+
 example : KEnergyFactory.unlock_epoch_to_start_of_month 95 = some 90 := by decide
+example : KEnergyFactory.lock_unlock_epoch 100 360 = some 450 := by decide
+example : KEnergyFactory.lock_unlock_epoch 100 10 = none := by decide
+example : KEnergyFactory.reduce_new_lock_epochs 100 360 = some 350 := by decide
 example : KEnergyFactory.calculate_penalty_amount 1000 360 0 (pctFull [(360, 4000), (720, 6000)]) =
     some 400 := by decide
 example : KEnergyFactory.calculate_penalty_amount 1000 720 360 (pctFull [(360, 4000), (720, 6000)]) =
